@@ -167,16 +167,19 @@ func c11WhollyKnown(as []cty.Value) bool {
 
 func conformsTo(given, want cty.Type) bool { return len(given.TestConformance(want)) == 0 }
 
-// c11Sig maps a panic / PanicError text to a stable root-cause signature.
+// c11Sig maps a panic / PanicError text to a stable root-cause signature
+// "<cause>:<function>" (cause first, so that one known finding can cover one
+// root cause across the functions that share the code).
 func c11Sig(fn, msg string) string {
 	msg = strings.ToLower(msg)
 	for _, k := range []string{"nil pointer", "index out of range", "slice bounds", "negative repeat count", "value is null", "value is unknown", "value is marked",
-		"not a number", "division of zero", "nan", "can't use elementiterator", "not conform", "wrong type", "makeslice", "unhashable", "inconsistent", "refine"} {
+		"not a number", "division of zero", "addition of infinities", "nan", "can't use elementiterator", "does not conform", "wrong type", "makeslice", "unhashable", "incompatible set rules",
+		"inconsistent", "refine"} {
 		if strings.Contains(msg, k) {
-			return fn + ":" + strings.ReplaceAll(k, " ", "-")
+			return strings.ReplaceAll(k, " ", "-") + ":" + fn
 		}
 	}
-	return fn + ":other"
+	return "other:" + fn
 }
 
 func c11One(ctx *Ctx, fn c11Fn, args []cty.Value) {
@@ -223,9 +226,9 @@ func c11One(ctx *Ctx, fn c11Fn, args []cty.Value) {
 		return
 	}
 	if ev != nil {
-		ctx.Fail(Failure{Site: "conforms-values", Sig: fn.name + ":rtv-rejects-successful-call", What: "Call succeeded but ReturnTypeForValues returned an error: " + trunc(ev.Error(), 120), Input: key, GoLit: lit, Outcome: res.GoString()})
+		ctx.Fail(Failure{Site: "conforms-values", Sig: "rtv-rejects-successful-call:" + fn.name, What: "Call succeeded but ReturnTypeForValues returned an error: " + trunc(ev.Error(), 120), Input: key, GoLit: lit, Outcome: res.GoString()})
 	} else if !conformsTo(res.Type(), rtv) {
-		ctx.Fail(Failure{Site: "conforms-values", Sig: fn.name + ":result-not-conforming-to-value-prediction", What: "result type " + res.Type().GoString() + " does not conform to ReturnTypeForValues = " + rtv.GoString(), Input: key, GoLit: lit, Outcome: res.GoString()})
+		ctx.Fail(Failure{Site: "conforms-values", Sig: "result-not-conforming-to-value-prediction:" + fn.name, What: "result type " + res.Type().GoString() + " does not conform to ReturnTypeForValues = " + rtv.GoString(), Input: key, GoLit: lit, Outcome: res.GoString()})
 	}
 	tys := make([]cty.Type, len(args))
 	for i, a := range args {
@@ -242,12 +245,12 @@ func c11One(ctx *Ctx, fn c11Fn, args []cty.Value) {
 		if errors.As(et, &pe2) {
 			ctx.Fail(Failure{Site: "total", Sig: "panic-error-rt:" + c11Sig(fn.name, pe2.Error()), What: "ReturnType returned an error reporting an internal panic: " + trunc(pe2.Error(), 160), Input: key, GoLit: lit, Outcome: "PanicError"})
 		} else if c11WhollyKnown(args) {
-			ctx.Fail(Failure{Site: "types-not-reject", Sig: fn.name + ":type-only-prediction-rejects", What: "evaluation with wholly known values succeeded but ReturnType(argument types) returned an error: " + trunc(et.Error(), 120), Input: key, GoLit: lit, Outcome: res.GoString()})
+			ctx.Fail(Failure{Site: "types-not-reject", Sig: "type-only-prediction-rejects:" + fn.name, What: "evaluation with wholly known values succeeded but ReturnType(argument types) returned an error: " + trunc(et.Error(), 120), Input: key, GoLit: lit, Outcome: res.GoString()})
 		} else {
 			ctx.Tag("type-only-error-with-unknown-args")
 		}
 	} else if !conformsTo(res.Type(), rt) {
-		ctx.Fail(Failure{Site: "conforms-types", Sig: fn.name + ":result-not-conforming-to-type-prediction", What: "result type " + res.Type().GoString() + " does not conform to ReturnType(types) = " + rt.GoString(), Input: key, GoLit: lit, Outcome: res.GoString()})
+		ctx.Fail(Failure{Site: "conforms-types", Sig: "result-not-conforming-to-type-prediction:" + fn.name, What: "result type " + res.Type().GoString() + " does not conform to ReturnType(types) = " + rt.GoString(), Input: key, GoLit: lit, Outcome: res.GoString()})
 	}
 }
 
@@ -260,7 +263,7 @@ func trunc(s string, n int) string {
 
 func runC11(ctx *Ctx) {
 	fns := c11Funcs()
-	per := ctx.N(260, 6000)
+	per := ctx.N(2500, 60000)
 	for _, fn := range fns {
 		t0 := time.Now()
 		defer func(name string) {}(fn.name)
